@@ -79,10 +79,11 @@ PROPS = {
     "C02": {
         "module": "Cuke.Props.C02",
         "namespace": "Cuke.C02",
-        "families": [("attempt.run", 800, 30000), ("sched.run", 1000, 40000), ("sched.lazy", 600, 30000), ("match.find", 6000, 200000)],
+        # trace.run (request mon.traced only): with the tracing integration Log events are events of an attempt too
+        "families": [("attempt.run", 800, 30000), ("sched.run", 1000, 40000), ("sched.lazy", 600, 30000), ("match.find", 6000, 200000), ("trace.run", 200, 3000)],
         "segments": {"attempt.run": [0], "sched.run": [13]},
         "segment_names": ['c02'],
-        "skip_prefixes": ["mon.c09", "mon.c10"],
+        "skip_prefixes": ["mon.c09", "mon.c10", "mon.c20"],
         "modelled_not_verified": [
             "catch_unwind / unwinding: a panic is an outcome value of the model",
             "attempts of concurrent runs (sched.*) are checked against the grammar recogniser shapeOk (theorem runAttempt_shape), not against a per-attempt script",
@@ -118,8 +119,8 @@ PROPS = {
     "C03": {
         "module": "Cuke.Props.C03",
         "namespace": "Cuke.C03",
-        "skip_prefixes": ["mon.c10"],
-        "families": [("sched.run", 1000, 40000), ("sched.lazy", 600, 30000), ("sched.custom", 400, 15000)],
+        "skip_prefixes": ["mon.c10", "mon.c20"],
+        "families": [("sched.run", 1000, 40000), ("sched.lazy", 600, 30000), ("sched.custom", 400, 15000), ("trace.run", 200, 3000)],
         "segments": {"sched.run": [3, 5, 2, 4, 7], "sched.mon": [7]},
         "segment_names": ['B', 'I', 'R', 'FF', 'c03'],
         "modelled_not_verified": ["futures crate: FuturesUnordered, mpsc channels, join/select (the plumbing is checked by comparing sent and received event sequences)", "the async executor (hand-polled by the harness) and Instant / thread::sleep (clock readings are environment inputs of the model)", "HashMap iteration order at finish_all (model: any order inside the rule group and the feature group)", "runs with a custom retry_options closure (scenarios that START with current != 0; family sched.custom) are judged by the stream monitor `framed` only: the scheduler model resolves retry options from tags"],
